@@ -30,6 +30,22 @@
             character)                                     -- C07 input
      lenum  every text of <= n symbols over a line-level alphabet (incl. tab)
                                                            -- C07 input
+     hdr    header lines carrying ONE tag: every name of Cat.hdr.names (the predefined
+            header tags VN, TS) declared with every datatype letter and every value of a
+            small value list (values of every datatype, so most combinations are a type
+            or a syntax mismatch), alone or behind one line that waits in the version
+            queue or followed by a tag / a segment line           -- C07 input
+     hist   API histories on a connected line (C07: "field names and values to set"):
+            a document of Cat.api.docs is loaded, then ONE positional field of ONE of
+            its lines (every line, every positional field) is assigned a string - every
+            valid and invalid representative the line layer knows for that field
+            (Recs) and every generic string of Cat.api.values - through line.set() or
+            through attribute assignment, followed by every tail of Cat.api.tails
+            (remove the line, disconnect it, remove the segment everything hangs on,
+            validate, write, assign the old text back and remove).  A history is
+            printed as indices <<"CH", doc, line, field, value text, setter, tail>>;
+            the harness executes it at every validation level and records the result
+            class of every call; TraceLex demands that each is an allowed outcome.
    The alphabets, catalogues and bounds are data (one JSON file written by
    harness/fam_lex.py and read here: a single source for TLC and for Python).
    Characters are printed as indices into Cat.chars, because TLC's output
@@ -49,6 +65,8 @@ LAlph  == Cat.lalph      \* [syms, n]
 Docs   == Cat.docs       \* [ver, dia, lines]
 Vars   == Cat.variants   \* [doc, op, k, f]
 Tmpl   == Cat.templates  \* [ver, dia, lines, slots: seq of [line, field, alts, ctx], orders, maxdev]
+Hdr    == Cat.hdr        \* [names, types, values, pre, suf]: sequences of texts
+Api    == Cat.api        \* [docs: seq of [ver, lines], values, nsetters, tails]
 Layers == Rng(Cat.layers)
 
 CharIdx == [ch \in Rng(Chars) |-> CHOOSE k \in DOMAIN Chars : Chars[k] = ch]
@@ -129,7 +147,40 @@ LMutText(x) ==
     [] k = 8 -> Ins(t, p, LReps[r])
 LEnumText(x) == Concat([k \in DOMAIN x.w |-> LAlph.syms[x.w[k]]])
 
+(* header lines with one tag: w = <<name, type, value, prefix, suffix>> *)
+HdrText(x) == Hdr.pre[x.w[4]] \o <<"H", "\t">> \o Hdr.names[x.w[1]] \o <<":">> \o Hdr.types[x.w[2]]
+              \o <<":">> \o Hdr.values[x.w[3]] \o Hdr.suf[x.w[5]]
+
+(* API histories: a = document, w = <<line, field, source of the value, value, setter, tail>> *)
+ALine(d, j) == Api.docs[d].lines[j]
+ARec(d, j) == {a \in DOMAIN Recs : Recs[a].ver = Api.docs[d].ver /\ Recs[a].rt = ALine(d, j)[1]}
+ANPos(d, j) == IF ARec(d, j) = {} THEN 1 ELSE NPos(CHOOSE a \in ARec(d, j) : TRUE)
+\* the strings offered for positional field i of line j: what the line layer knows for that
+\* field of that record type (source 1), the generic strings (source 2)
+AValues(d, j, i, src) ==
+  IF src = 2 THEN Api.values
+  ELSE IF ARec(d, j) = {} THEN <<>>
+  ELSE LET a == CHOOSE b \in ARec(d, j) : TRUE IN IF i <= NPos(a) THEN PosReps(a, i) ELSE <<>>
+HistValue(x) == AValues(x.a, x.w[1], x.w[2], x.w[3])[x.w[4]]
+
 -----------------------------------------------------------------------------
+(* Law of the specification itself, checked by TLC at every run: the number of overlaps of
+   a GFA1 path decides independently of what the overlaps are.  For n segments and m overlaps
+   that are all `*`, all CIGARs, or mixed: the single `*` is accepted; m = n-1 is accepted
+   (CIGARs) or left open (`*` elements are disputed syntax); m = n is left open (circular
+   paths: gfapy only); every other m is rejected.                                        *)
+Rep(e, m) == Join([k \in 1..m |-> e], ",")
+PLine(n, ov) == << <<"P">>, <<"p">>, Rep(<<"A", "+">>, n), ov >>
+Mixed(m) == Join([k \in 1..m |-> IF k = 2 THEN <<"1", "M">> ELSE <<"*">>], ",")
+ASSUME PathCountLaw ==
+  \A n \in 1..5, m \in 1..7 :
+    LET stars == LineVerdict("gfa1", PLine(n, Rep(<<"*">>, m)), FALSE)
+        cigs  == LineVerdict("gfa1", PLine(n, Rep(<<"1", "M">>, m)), FALSE)
+        mixed == LineVerdict("gfa1", PLine(n, Mixed(m)), FALSE) IN
+    /\ stars = (IF m = 1 THEN "acc" ELSE IF m \in {n - 1, n} THEN "either" ELSE "rej")
+    /\ cigs = (IF m = n - 1 THEN "acc" ELSE IF m = n THEN "either" ELSE "rej")
+    /\ m >= 2 => mixed = (IF m \in {n - 1, n} THEN "either" ELSE "rej")
+
 St(lay, a, w) == [lay |-> lay, a |-> a, w |-> w]
 
 Init ==
@@ -158,6 +209,17 @@ Init ==
           \/ \E p \in 1..(Len(LText(a)) + 1), r \in DOMAIN LReps : c = St("lmut", a, <<8, p, r>>)
   \/ /\ "lenum" \in Layers
      /\ c = St("lenum", 1, <<>>)
+  \/ /\ "hdr" \in Layers
+     /\ \E n \in DOMAIN Hdr.names, t \in DOMAIN Hdr.types, v \in DOMAIN Hdr.values,
+           p \in DOMAIN Hdr.pre, s \in DOMAIN Hdr.suf :
+          /\ (IF p = 1 THEN TRUE ELSE s = 1)   \* the first prefix / suffix is the empty one (no disjunction: TLC would split it)
+          /\ c = St("hdr", 1, <<n, t, v, p, s>>)
+  \/ /\ "hist" \in Layers
+     /\ \E d \in DOMAIN Api.docs :
+        \E j \in DOMAIN Api.docs[d].lines :
+        \E i \in 1..ANPos(d, j), src \in {1, 2} :
+        \E v \in DOMAIN AValues(d, j, i, src), st \in 1..Api.nsetters, tl \in DOMAIN Api.tails :
+          c = St("hist", d, <<j, i, src, v, st, tl>>)
 
 Next ==
   \/ /\ c.lay = "enum" /\ Len(c.w) < Alph[c.a].n
@@ -200,4 +262,6 @@ Emit ==
          PrintT(<<"CD", Tmpl[c.a].ver, Tmpl[c.a].dia, EncD(d), DocVerdict(Tmpl[c.a].ver, Tmpl[c.a].dia, d)>>)
     [] c.lay = "lmut" -> PrintT(<<"CT", VLines[c.a].ver, Enc(LMutText(c))>>)
     [] c.lay = "lenum" -> PrintT(<<"CT", "any", Enc(LEnumText(c))>>)
+    [] c.lay = "hdr" -> PrintT(<<"CT", "any", Enc(HdrText(c))>>)
+    [] c.lay = "hist" -> PrintT(<<"CH", c.a, c.w[1], c.w[2], Enc(HistValue(c)), c.w[5], c.w[6]>>)
 =============================================================================
